@@ -1,9 +1,17 @@
 //! C05 correspondence harness: drives barter_data::books::{OrderBook, OrderBookSide} on
 //! generated event sequences and prints inputs + observed outputs as Coq terms (Corr/C05.v).
 use barter_data::{
-    books::{Level, OrderBook, OrderBookSide},
+    books::{
+        Level, OrderBook, OrderBookSide,
+        manager::OrderBookL2Manager,
+        map::{OrderBookMap, OrderBookMapMulti},
+    },
+    event::MarketEvent,
+    streams::consumer::MarketStreamEvent,
     subscription::book::OrderBookEvent,
 };
+use barter_instrument::exchange::ExchangeId;
+use std::sync::Arc;
 use chrono::{DateTime, TimeZone, Utc};
 use rust_decimal::Decimal;
 use serde_json::{Value, json};
@@ -336,6 +344,125 @@ fn table(em: &mut Emitter) {
     }
 }
 
+/// One manager stream item: Some(key) = item for that instrument key, None = reconnecting notice.
+type MgrEv = (Option<usize>, Ev);
+
+fn run_manager_case(nb: usize, mevs: &[MgrEv]) -> String {
+    let books: fnv::FnvHashMap<usize, Arc<parking_lot::RwLock<OrderBook>>> = (0..nb)
+        .map(|i| (i, Arc::new(parking_lot::RwLock::new(OrderBook::default()))))
+        .collect();
+    let map = OrderBookMapMulti::new(books);
+    let items: Vec<MarketStreamEvent<usize, OrderBookEvent>> = mevs
+        .iter()
+        .map(|(k, e)| match k {
+            None => MarketStreamEvent::Reconnecting(ExchangeId::BinanceSpot),
+            Some(key) => {
+                let ob = OrderBook::new(e.seq, time_of(e.time), lv(&e.bids), lv(&e.asks));
+                MarketStreamEvent::Item(MarketEvent {
+                    time_exchange: Utc.timestamp_millis_opt(0).unwrap(),
+                    time_received: Utc.timestamp_millis_opt(0).unwrap(),
+                    exchange: ExchangeId::BinanceSpot,
+                    instrument: *key,
+                    kind: if e.snapshot {
+                        OrderBookEvent::Snapshot(ob)
+                    } else {
+                        OrderBookEvent::Update(ob)
+                    },
+                })
+            }
+        })
+        .collect();
+    let manager = OrderBookL2Manager {
+        stream: futures::stream::iter(items),
+        books: map.clone(),
+    };
+    let rt = tokio::runtime::Builder::new_current_thread()
+        .enable_all()
+        .build()
+        .unwrap();
+    rt.block_on(manager.run());
+    let finals: Vec<String> = (0..nb)
+        .map(|i| {
+            let b = map.find(&i).expect("configured book");
+            let b = b.read();
+            format!(
+                "({}, {}, {}, {})",
+                n_(b.sequence),
+                opt(b.time_engine.map(|t| z(t.timestamp_millis() as i128))),
+                coq_levels(b.bids().levels()),
+                coq_levels(b.asks().levels())
+            )
+        })
+        .collect();
+    format!(
+        "(CManager {} {} {})",
+        n(nb as u128),
+        list(
+            &mevs
+                .iter()
+                .map(|(k, e)| pair(&opt(k.map(|x| n(x as u128))), &e.coq()))
+                .collect::<Vec<_>>()
+        ),
+        list(&finals)
+    )
+}
+fn n_(x: u64) -> String {
+    n(x as u128)
+}
+
+fn emit_manager(em: &mut Emitter, stream: &'static str, nb: usize, mevs: &[MgrEv]) {
+    let m2 = mevs.to_vec();
+    let coq = catch(move || run_manager_case(nb, &m2)).unwrap_or_else(|_| {
+        // a manager that panics holds no books: reported as a book panic on the routed events
+        format!(
+            "(CBookPanic {} 0%N)",
+            list(&mevs.iter().map(|(_, e)| e.coq()).collect::<Vec<_>>())
+        )
+    });
+    em.emit(Case {
+        stream,
+        input: json!({"kind": "manager", "books": nb,
+            "items": mevs.iter().map(|(k, e)| json!({"key": k, "event": e.to_json()})).collect::<Vec<_>>()}),
+        coq,
+        nontrivial: mevs.iter().any(|(k, e)| k.is_some() && (!e.bids.is_empty() || !e.asks.is_empty())),
+        tags: vec!["manager".to_string()],
+    });
+}
+
+fn gen_manager_case(r: &mut Rng, max_events: u64) -> (usize, Vec<MgrEv>) {
+    let nb = 1 + r.below(4) as usize;
+    let k = 1 + r.below(max_events);
+    let mut mevs = vec![];
+    let mut seq = r.below(100);
+    for _ in 0..k {
+        seq += 1 + r.below(3);
+        let key = match r.below(12) {
+            0 => None,                                  // reconnecting notice
+            1 => Some(nb + r.below(2) as usize),        // non-configured instrument
+            _ => Some(r.below(nb as u64) as usize),
+        };
+        let snapshot = r.chance(1, 5);
+        let (bids, asks) = if snapshot {
+            (gen_levels(r, 5, 0, true), gen_levels(r, 5, 0, true))
+        } else {
+            // aim at the small price grid so that books of different keys would collide if
+            // an item were applied to the wrong book
+            (gen_update_levels(r, &[], 4, false), gen_update_levels(r, &[], 4, false))
+        };
+        mevs.push((
+            key,
+            Ev {
+                snapshot,
+                seq,
+                time: if r.chance(1, 4) { None } else { Some(1_700_000_000_000 + r.below(1000) as i64) },
+                bids,
+                asks,
+            },
+        ));
+    }
+    (nb, mevs)
+}
+
 fn main() {
     quiet_panics();
     let args = parse_args();
@@ -357,6 +484,11 @@ fn main() {
                 let (evs, d) = gen_book_case(&mut r, max_ev, true);
                 emit_book(&mut em, "adversarial", &evs, d);
             }
+            let n_mgr = if args.tier == "thorough" { 1500 } else { 120 };
+            for _ in 0..n_mgr {
+                let (nb, mevs) = gen_manager_case(&mut r, 14);
+                emit_manager(&mut em, "random", nb, &mevs);
+            }
             for _ in 0..n_side {
                 let bid = r.chance(1, 2);
                 let init = gen_levels(&mut r, 8, 1, true);
@@ -368,7 +500,15 @@ fn main() {
         "exec" => {
             for (inp, stream) in read_inputs(args.input.as_deref().expect("--in")) {
                 let st = stream_static(&stream);
-                if inp["kind"] == "book" {
+                if inp["kind"] == "manager" {
+                    let mevs: Vec<MgrEv> = inp["items"]
+                        .as_array()
+                        .unwrap()
+                        .iter()
+                        .map(|it| (it["key"].as_u64().map(|x| x as usize), Ev::from_json(&it["event"])))
+                        .collect();
+                    emit_manager(&mut em, st, inp["books"].as_u64().unwrap() as usize, &mevs);
+                } else if inp["kind"] == "book" {
                     let evs: Vec<Ev> = inp["events"]
                         .as_array()
                         .unwrap()
